@@ -25,6 +25,9 @@ type inlCtx struct {
 	names    map[string]bool
 	root     ast.Node // the declaration being rewritten (function, or package-level variable declaration)
 	rootName string
+	// set while a directly deferred helper is inlined into a deferred literal: recover() stays a direct call of the
+	// deferred function, so its meaning is kept
+	allowRecover bool
 }
 
 func (n *normalizer) rewriteFunc(pkg *packages.Package, file *ast.File, fd *ast.FuncDecl) bool {
@@ -129,7 +132,7 @@ func (c *inlCtx) candidate(e ast.Expr) (*ast.CallExpr, *Func) {
 	if sig.Variadic() && !call.Ellipsis.IsValid() {
 		return nil, nil
 	}
-	if why := hasUnsupported(f.Body); why != "" {
+	if why := hasUnsupported(f.Body); why != "" && !(why == "recover" && c.allowRecover) {
 		c.skip(call, f, "the helper uses "+why)
 		return nil, nil
 	}
